@@ -113,6 +113,13 @@ const (
 
 // InvalidOptions reports whether the option combination must be rejected.
 func (r Reg) InvalidOptions() bool {
+	if r.Form == FormOut {
+		for _, o := range r.Outs {
+			if o.Key != "" && o.Group != "" {
+				return true // a result-object field is a named service or a group member, not both
+			}
+		}
+	}
 	return (r.Name != "" && r.Group != "") || r.BadOpt == BadOptAsNonIface || r.BadOpt == BadOptBackquote
 }
 
